@@ -6,7 +6,7 @@ import ast
 import struct
 from typing import Any, Dict, List, Optional, Tuple  # noqa: F401
 
-from .. import codec, docs, parity
+from .. import codec, docs, inline, parity
 from ..cfg import CFG
 from ..model import AnchorMissing, NotConst, Repo, attr_chain, norm, stmts_of, walk_no_nested
 from . import c03
@@ -501,7 +501,7 @@ def positions(repo: Repo, rep, P: str):
         rep.ok(f"{P}.R4", f"{sv.file.rel}:SunVoxReader.process_SEND", "attach_module(None, loading=True)", "an empty position in the file stays an empty position")
     else:
         rep.violation(f"{P}.R4", f"{sv.file.rel}:SunVoxReader.process_SEND", s[:120], "a bare SEND must append an empty module position", sv.file.rel)
-    eof = repo.own_method(sv, "process_end_of_file")
+    eof = inline.normalize(repo, sv, repo.own_method(sv, "process_end_of_file"), aliases=True)
     n_trim = 0
     parents = {}
     for n in ast.walk(eof):
@@ -553,8 +553,10 @@ def positions(repo: Repo, rep, P: str):
     s2 = norm(repo.own_method(sv, "process_SFFF"))
     if "index = len(self.object.modules)" in s2 and "self.object.attach_module(mod, loading=True)" in s2:
         rep.ok(f"{P}.R4", f"{sv.file.rel}:SunVoxReader.process_SFFF", "index = len(modules); attach_module(mod, loading=True)")
-    pc = norm(repo.own_method(sv, "process_chunks"))
-    if "self.object.modules.clear()" in pc:
+    pcf = inline.normalize(repo, sv, repo.own_method(sv, "process_chunks"), aliases=True)
+    pc = norm(pcf)
+    if any(isinstance(c, ast.Call) and isinstance(c.func, ast.Attribute) and c.func.attr == "clear" and norm(c.func.value).endswith(".modules")
+           for c in ast.walk(pcf)):
         rep.ok(f"{P}.R4", f"{sv.file.rel}:SunVoxReader.process_chunks", "self.object.modules.clear()", "positions start at 0 for the file's first module", nontrivial=False)
     else:
         rep.violation(f"{P}.R4", f"{sv.file.rel}:SunVoxReader.process_chunks", pc[:160], "the pre-attached Output must be dropped before reading the file's modules",
@@ -568,7 +570,7 @@ def short_cval(repo: Repo, rep, P: str):
     rel = mr.file.rel
     s = norm(fn)
     con = f"{rel}:ModuleReader.process_SEND"
-    from .. import inline, order
+    from .. import order
     app = order.cval_application(repo)
     if app.positional is True and app.bounded is True:
         rep.ok(f"{P}.R5", con, app.text[:160],
@@ -603,8 +605,21 @@ def short_cval(repo: Repo, rep, P: str):
 def fixups(repo: Repo, rep, P: str):
     sv = repo.cls("SunVoxReader", module="rv.readers.sunvox")
     rel = sv.file.rel
-    pc = norm(repo.own_method(sv, "process_chunks"))
-    if "self.object.based_on_version = None" in pc and "if self.object.based_on_version is None:" in pc and "(1, 7, 0, 0)" in pc:
+    pcf = inline.normalize(repo, sv, repo.own_method(sv, "process_chunks"), aliases=True)
+    pc = norm(pcf)
+    init_none = any(isinstance(n, ast.Assign) and any(isinstance(t, ast.Attribute) and t.attr == "based_on_version" for t in n.targets)
+                    and isinstance(n.value, ast.Constant) and n.value.value is None for n in ast.walk(pcf))
+    legacy = False
+    for n in ast.walk(pcf):
+        if isinstance(n, ast.If) and isinstance(n.test, ast.Compare) and isinstance(n.test.left, ast.Attribute) and n.test.left.attr == "based_on_version" \
+                and isinstance(n.test.ops[0], ast.Is) and norm(n.test.comparators[0]) == "None":
+            for b in n.body:
+                if isinstance(b, ast.Assign) and any(isinstance(t, ast.Attribute) and t.attr == "based_on_version" for t in b.targets):
+                    try:
+                        legacy = repo.fold(b.value, ci=sv, sf=sv.file) == (1, 7, 0, 0)
+                    except NotConst:
+                        legacy = False
+    if init_none and legacy:
         rep.ok(f"{P}.R6", f"{rel}:SunVoxReader.process_chunks", "BVER absent → (1, 7, 0, 0)", "legacy default")
     else:
         rep.violation(f"{P}.R6", f"{rel}:SunVoxReader.process_chunks", pc[:200], "files without BVER must get the legacy based-on version", rel)
@@ -619,7 +634,15 @@ def module_highbyte_fixup(repo: Repo, rep, P: str, rule: str, require_present: b
     sv = repo.cls("SunVoxReader", module="rv.readers.sunvox")
     rel = sv.file.rel
     masks = []
+    flat_methods = {}
+    inlined_names = set()
     for name, fn in sv.methods.items():
+        il = inline.Inliner(repo, sv, sv.file)
+        flat_methods[name] = inline.expand_aliases(inline.unroll(il.flatten(fn), repo, sv))
+        inlined_names |= set(il.inlined)
+    for name, fn in flat_methods.items():
+        if name in inlined_names and name.startswith("_") and not name.startswith("__"):
+            continue            # analysed inside its callers
         parents = {}
         for n in ast.walk(fn):
             for fld, val in ast.iter_fields(n):
